@@ -156,7 +156,7 @@ def run_case(stream, seed, ctx, params):
     rng = random.Random(seed)
     if stream == 'hextrav':
         return hextrav_case(seed, rng, ctx)
-    kind = rng.choice(['hex', 'hex', 'hex3'])
+    kind = rng.choice(['hex', 'hex', 'hex3', 'rhpmac'])
     d = U.build_universe_deck(rng, depth=rng.randint(1, 2), macro_p=0.0, tr_p=0.0, fill_tr_p=0.4, trcl_p=0.2,
                               reuse_p=0.3, lattice_p=0.7, lat_kind=kind, lat_tr_p=0.25, lat_trcl_p=0.2)
     args = random_options(rng)
